@@ -495,7 +495,27 @@ class Inliner:
                 for _round in range(4):
                     if not self._expand(fn, q, mn, cls):
                         break
-        # the helpers themselves stay in the tree (rules that enumerate functions still see them)
+        # a helper outside the inventory whose every use was unfolded is dropped: its code now lives in its callers
+        used = {}
+        for q in list(self.index):
+            fn, cls, func, mn = self.index[q]
+            if q in self.known or not any(s.endswith("<- " + q) for s in self.stats["sites"]):
+                continue
+            refs = 0
+            for t in self.trees.values():
+                for n in ast.walk(t):
+                    if n is fn:
+                        continue
+                    if (isinstance(n, ast.Name) and n.id == fn.name) or (isinstance(n, ast.Attribute) and n.attr == fn.name):
+                        refs += 1
+            inner = sum(1 for n in ast.walk(fn) if (isinstance(n, ast.Name) and n.id == fn.name) or (isinstance(n, ast.Attribute) and n.attr == fn.name))
+            if refs - inner == 0:
+                owner = cls if cls is not None else func if func is not None else self.trees[mn]
+                if fn in owner.body:
+                    owner.body.remove(fn)
+                    if not owner.body:
+                        owner.body.append(ast.Pass())
+                    self.stats.setdefault("dropped", []).append(q)
         return self.stats
 
     # -- one round over one function -------------------------------------
@@ -598,6 +618,9 @@ class Inliner:
                     return rep + [s]
         return None
 
+    def _search_loop(self, body, kind, target, stmt):
+        return _search_loop_impl(body, kind, target, stmt)
+
     def _note(self, q, fq):
         self.stats["inlined"] += 1
         self.stats["sites"].append("%s <- %s" % (fq, q))
@@ -679,7 +702,12 @@ class Inliner:
             return None
         body = nest_early_exits(body)
         if not _tail_returns_only(body):
-            return None
+            # search loop: `for ...: if c: return X` followed by `return D` (or nothing): the returns become `v = X; break`
+            body2 = self._search_loop(body, kind, target, stmt)
+            if body2 is None:
+                return None
+            self._note(q, "?")
+            return pre + body2
 
         def mk(value, at):
             if kind == "return":
@@ -705,6 +733,59 @@ class Inliner:
             out = [ast.copy_location(ast.Pass(), stmt)]
         self._note(q, "?")
         return out
+
+
+def _returns_in(node):
+    return [n for n in _walk_same_function(node) if isinstance(n, ast.Return)]
+
+
+def _search_loop_impl(body, kind, target, stmt):
+    if kind not in ("assign", "return"):
+        return None
+    loops = [i for i, s in enumerate(body) if isinstance(s, (ast.For, ast.While))]
+    if len(loops) != 1:
+        return None
+    i = loops[0]
+    loop = body[i]
+    tail = body[i + 1:]
+    if loop.orelse or any(_returns_in(s) for s in body[:i]):
+        return None
+    if not (len(tail) == 0 or (len(tail) == 1 and isinstance(tail[0], ast.Return))):
+        return None
+    # returns inside the loop: only under plain if nesting
+    def ok(stmts):
+        for s in stmts:
+            if isinstance(s, ast.Return):
+                continue
+            if isinstance(s, ast.If):
+                if not ok(s.body) or not ok(s.orelse):
+                    return False
+            elif _returns_in(s):
+                return False
+        return True
+    if not ok(loop.body):
+        return None
+    default = tail[0].value if tail and tail[0].value is not None else ast.Constant(value=None)
+    if kind == "return":
+        # the value is returned by the caller as well: keep the returns, only the shape of the helper moves
+        return body[:i] + [loop] + [ast.copy_location(ast.Return(value=default), stmt)]
+
+    def rep(stmts):
+        out = []
+        for s in stmts:
+            if isinstance(s, ast.Return):
+                v = s.value if s.value is not None else ast.Constant(value=None)
+                out.append(ast.fix_missing_locations(ast.copy_location(ast.Assign(targets=[copy.deepcopy(target)], value=v), s)))
+                out.append(ast.copy_location(ast.Break(), s))
+            else:
+                if isinstance(s, ast.If):
+                    s.body = rep(s.body)
+                    s.orelse = rep(s.orelse)
+                out.append(s)
+        return out
+    loop.body = rep(loop.body)
+    init = ast.fix_missing_locations(ast.copy_location(ast.Assign(targets=[copy.deepcopy(target)], value=default), stmt))
+    return body[:i] + [init, loop]
 
 
 def _walk_no_scopes(node):
@@ -916,6 +997,75 @@ def _is_wild(s):
     return isinstance(s, ast.Expr) and isinstance(s.value, ast.Constant) and s.value.value is Ellipsis
 
 
+def _walk_loop_body(node):
+    """nodes of a loop body that belong to this loop (nested loops keep their own break statements)"""
+    yield node
+    if isinstance(node, (ast.For, ast.While, ast.FunctionDef, ast.AsyncFunctionDef, ast.ClassDef, ast.Lambda)):
+        return
+    for c in ast.iter_child_nodes(node):
+        yield from _walk_loop_body(c)
+
+
+def _sentinel_search(stmts):
+    """v = None; for ...: if c: v = X; break      if v is not None: <leave, using v>
+       ->  for ...: if c: <leave, using X>"""
+    out = list(stmts)
+    i = 0
+    while i + 2 < len(out) + 0 and i + 2 <= len(out) - 1:
+        a, lp, chk = out[i], out[i + 1], out[i + 2]
+        if (isinstance(a, ast.Assign) and len(a.targets) == 1 and isinstance(a.targets[0], ast.Name) and isinstance(a.value, ast.Constant) and a.value.value is None
+                and isinstance(lp, (ast.For, ast.While)) and not lp.orelse and isinstance(chk, ast.If) and not chk.orelse and _exits(chk.body)):
+            v = a.targets[0].id
+            t = chk.test
+            is_test = (isinstance(t, ast.Compare) and len(t.ops) == 1 and isinstance(t.ops[0], ast.IsNot) and isinstance(t.left, ast.Name) and t.left.id == v and isinstance(t.comparators[0], ast.Constant) and t.comparators[0].value is None) or (isinstance(t, ast.Name) and t.id == v and False)
+            sets = []
+            bad = False
+            for n in _walk_loop_body_list(lp.body):
+                if isinstance(n, ast.Name) and n.id == v:
+                    if not isinstance(n.ctx, ast.Store):
+                        bad = True
+            # every store of v inside the loop is `v = X` directly followed by `break`
+            def find(stmts_):
+                nonlocal bad
+                for k, s in enumerate(stmts_):
+                    if isinstance(s, ast.Assign) and len(s.targets) == 1 and isinstance(s.targets[0], ast.Name) and s.targets[0].id == v:
+                        if k + 1 < len(stmts_) and isinstance(stmts_[k + 1], ast.Break) and k + 2 == len(stmts_):
+                            sets.append((stmts_, k))
+                        else:
+                            bad = True
+                    elif isinstance(s, ast.If):
+                        find(s.body)
+                        find(s.orelse)
+                    elif any(isinstance(x, ast.Name) and x.id == v for x in ast.walk(s)):
+                        bad = True
+            find(lp.body)
+            later = any(isinstance(x, ast.Name) and x.id == v for s in out[i + 3:] for x in ast.walk(s))
+            # the mirrored spelling: `if v is None: <leave>` and the use of v is everything that follows (which leaves too)
+            is_none_test = isinstance(t, ast.Compare) and len(t.ops) == 1 and isinstance(t.ops[0], ast.Is) and isinstance(t.left, ast.Name) and t.left.id == v and isinstance(t.comparators[0], ast.Constant) and t.comparators[0].value is None
+            if is_none_test and sets and not bad and _exits(out[i + 3:]):
+                rest = out[i + 3:]
+                for lst, k in sets:
+                    x_expr = lst[k].value
+                    body = [(_SubstName(v, x_expr).visit(copy.deepcopy(b))) for b in rest]
+                    lst[k:k + 2] = [ast.fix_missing_locations(b) for b in body]
+                out[i:] = [lp] + chk.body
+                continue
+            if is_test and sets and not bad and not later:
+                for lst, k in sets:
+                    x_expr = lst[k].value
+                    body = [(_SubstName(v, x_expr).visit(copy.deepcopy(b))) for b in chk.body]
+                    lst[k:k + 2] = [ast.fix_missing_locations(b) for b in body]
+                out[i:i + 3] = [lp]
+                continue
+        i += 1
+    return out
+
+
+def _walk_loop_body_list(stmts):
+    for s in stmts:
+        yield from _walk_loop_body(s)
+
+
 def _bool_simplify(e):
     """in a boolean context: True if A else X -> A or X; False if A else X -> not A and X; X if A else False -> A and X; X if A else True -> not A or X"""
     if isinstance(e, ast.IfExp):
@@ -1030,6 +1180,19 @@ def canon_flow_list(stmts, pattern=False):
                     s.test = s.test.operand
                     s.body, s.orelse = s.orelse, s.body
         out.append(s)
+    if not pattern:
+        out = _sentinel_search(out)
+    # a loop without `break`: its else-clause is simply what follows
+    flat = []
+    for s in out:
+        if isinstance(s, (ast.For, ast.While)) and s.orelse and not pattern and not any(isinstance(x, ast.Break) for b in s.body for x in _walk_loop_body(b)):
+            rest = s.orelse
+            s.orelse = []
+            flat.append(s)
+            flat.extend(rest)
+        else:
+            flat.append(s)
+    out = flat
     # if c: return a   return b   ->   return a if c else b   (applied from the end, so chains nest)
     i = len(out) - 2
     while i >= 0:
